@@ -513,6 +513,101 @@ func runC02(c *Ctx) {
 			c.info("C02-R7", "cmd/glyph#json-body-detection", token.NoPos, "Content-Type handling not found in both handlers")
 		}
 	}
+	// the set of HTTP methods for which a request body is decoded
+	{
+		methods := func(root *ssa.Function) map[string]bool {
+			out := map[string]bool{}
+			seen := map[*ssa.Function]bool{}
+			var visit func(f *ssa.Function, d int)
+			visit = func(f *ssa.Function, d int) {
+				if f == nil || seen[f] || d > 1 || len(f.Blocks) == 0 {
+					return
+				}
+				seen[f] = true
+				for _, g := range withAnon(f) {
+					seen[g] = true
+					eachInstr(g, func(_ *ssa.BasicBlock, _ int, ins ssa.Instruction) {
+						switch x := ins.(type) {
+						case *ssa.BinOp:
+							if x.Op != token.EQL && x.Op != token.NEQ {
+								return
+							}
+							for _, pr := range [][2]ssa.Value{{x.X, x.Y}, {x.Y, x.X}} {
+								u, ok := pr[0].(*ssa.UnOp)
+								if !ok {
+									continue
+								}
+								if nt, f, ok := fieldOf(u.X); ok && nt != nil && nt.Obj().Name() == "Request" && f == "Method" {
+									if s, ok := constString(pr[1]); ok {
+										out[s] = true
+									}
+								}
+							}
+						case *ssa.Call:
+							if sf := staticFn(x); sf != nil && sf.Pkg != nil && sf.Pkg.Pkg.Path() == modPath+"/"+glyphCmd {
+								visit(sf, d+1)
+							}
+						}
+					})
+				}
+			}
+			visit(root, 0)
+			return out
+		}
+		var a, b map[string]bool
+		if f := c.fn(glyphCmd, "createCompiledRouteHandler"); f != nil {
+			a = methods(f)
+		}
+		if f := c.fn(glyphCmd, "executeRoute"); f != nil {
+			b = methods(f)
+		}
+		if len(a) > 0 && len(b) > 0 {
+			c.ob("C02-R7", "cmd/glyph#body-methods-agree", token.NoPos, setStr(a) == setStr(b), "the compiled handler tests the request method against {"+setStr(a)+"} but the interpreted path against {"+setStr(b)+"}: for a method in one set only (DELETE) one engine binds the decoded body as `input` and validates it, the other sees no body")
+		} else {
+			c.info("C02-R7", "cmd/glyph#body-methods", token.NoPos, "request-method tests not found in both handlers")
+		}
+	}
+	// every Go type the shared query processing can put into the query object has an arm in the VM value conversion
+	if iv := c.fn(glyphCmd, "interfaceToValue"); iv != nil {
+		arms := map[string]bool{}
+		eachInstr(iv, func(_ *ssa.BasicBlock, _ int, ins ssa.Instruction) {
+			if ta, ok := ins.(*ssa.TypeAssert); ok && ta.X == ssa.Value(iv.Params[0]) {
+				arms[ta.AssertedType.String()] = true
+			}
+		})
+		produced := map[string]token.Pos{}
+		for _, name := range []string{"ProcessQueryParams", "convertValue", "convertToArray", "autoConvert"} {
+			f := c.fn(interpPkg, name)
+			if f == nil {
+				continue
+			}
+			eachInstr(f, func(_ *ssa.BasicBlock, _ int, ins ssa.Instruction) {
+				mi, ok := ins.(*ssa.MakeInterface)
+				if !ok {
+					return
+				}
+				if it, ok := mi.Type().Underlying().(*types.Interface); !ok || it.NumMethods() != 0 {
+					return // only values boxed into interface{} (not errors)
+				}
+				// the boxed value ends up in the result map or is returned as a value
+				produced[mi.X.Type().String()] = mi.Pos()
+			})
+		}
+		names := make([]string, 0, len(produced))
+		for t := range produced {
+			names = append(names, t)
+		}
+		sort.Strings(names)
+		for _, t := range names {
+			if strings.HasPrefix(t, "*") || strings.Contains(t, "error") {
+				continue
+			}
+			c.ob("C02-R7", "cmd/glyph.interfaceToValue#arm-for-query-value:"+short(t), produced[t], arms[t], "the query processing shared by both engines produces values of Go type "+t+" but interfaceToValue has no arm for it and converts them to null: the compiled engine sees null where the interpreter sees the value")
+		}
+		if len(names) < 4 {
+			c.undecided("C02-R7: only %d boxed result types found in the query processing", len(names))
+		}
+	}
 	_ = nApp
 
 	// ---- R6 one engine per module
